@@ -52,7 +52,8 @@ func (s *Stats) Merge(o *Stats) {
 	}
 	s.Violations = append(s.Violations, o.Violations...)
 	for k, v := range o.VioHist {
-		if _, ok := s.VioHist[k]; !ok {
+		// keep the shortest witness history per signature
+		if cur, ok := s.VioHist[k]; !ok || len(v.Steps) < len(cur.Steps) {
 			s.VioHist[k] = v
 		}
 	}
@@ -115,6 +116,9 @@ type BatchInfo struct {
 	Issued     int
 	Callbacks  int
 	Closed     bool // expiry block ended
+	CbOutputs  []string
+	CbErr      bool
+	HasCb      bool
 	Module     string
 }
 
@@ -214,8 +218,8 @@ func (m *Mon) fail(sc *StepCtx, prop, rule, sigDetail, format string, a ...inter
 	}
 	v := Violation{Prop: prop, Rule: rule, Sig: sig, Msg: fmt.Sprintf(format, a...), StepIdx: idx, History: m.run.hist.Name}
 	m.stats.Violations = append(m.stats.Violations, v)
-	if _, ok := m.stats.VioHist[sig]; !ok {
-		// copy of the history so far (the witness)
+	if cur, ok := m.stats.VioHist[sig]; !ok || len(m.run.hist.Steps) < len(cur.Steps) {
+		// copy of the history so far (the witness); the shortest one is kept
 		h := *m.run.hist
 		h.Steps = append([]Step(nil), m.run.hist.Steps...)
 		m.stats.VioHist[sig] = &h
